@@ -179,44 +179,61 @@ def _find_call_node(ps, rv):
 
 
 def _check_mro_loop(ctx, owner, name, fn, mem):
-    """the ancestor loop iterates type(expr).__mro__[1:] in order, is guarded
-    by isinstance(expr, Expression) and its else-clause is the hook"""
+    """the ancestor search iterates type(expr).__mro__[1:] in order; it and the
+    unsupported-expression hook are reached only for Expression instances,
+    anything else goes to map_foreign; the hook is reached only after the
+    search has been exhausted (path rule)"""
     loops = [n for n in ast.walk(fn) if isinstance(n, ast.For)]
     ok = False
     why = "no for-loop over type(expr).__mro__[1:]"
+    the_loop = None
     for lp in loops:
         ev = Evaluator(fn)
         src = ev.ev(lp.iter)
         if src == MRO_TAIL:
             ok = True
+            the_loop = lp
             why = "iterates type(expr).__mro__[1:] in order"
-            # else clause
-            if not lp.orelse:
-                ok, why = False, "ancestor loop has no else: an unsupported node "\
-                    "falls through silently"
-            else:
-                last = lp.orelse[-1]
-                s = ast.unparse(last)
-                if "handle_unsupported_expression" not in s:
-                    ok, why = False, "ancestor loop's else is not the "\
-                        "unsupported-expression hook"
-            # every break-free exit from the body is a return of the handler
             for n in ast.walk(lp):
                 if isinstance(n, (ast.Break,)):
-                    ok, why = False, "ancestor loop breaks without dispatching"
-            # guard
-            par = mem.owner.module.parent(lp)
-            if not (isinstance(par, ast.If) and "isinstance(" in ast.unparse(
-                    par.test) and "Expression" in ast.unparse(par.test)):
-                ok, why = False, "ancestor loop not guarded by "\
-                    "isinstance(expr, Expression)"
-            elif not par.orelse or "map_foreign" not in ast.unparse(par.orelse[-1]):
-                ok, why = False, "non-Expression objects are not routed to "\
-                    "map_foreign"
+                    raise AnalysisError(f"{owner.name}.{name}: the ancestor loop "
+                                        "contains a break (not modelled)")
             break
         elif "__mro__" in ast.unparse(lp.iter):
             why = (f"ancestor loop iterates {ast.unparse(lp.iter)} instead of "
                    "type(expr).__mro__[1:] (order or start changed)")
+    if ok:
+        def is_expr(ps):
+            """True / False / None: what the path knows about
+            isinstance(expr, Expression)"""
+            for _, pol, c in ps.conds:
+                while isinstance(c, tuple) and c[0] == "unop" and c[1] == "Not":
+                    c, pol = c[2], not pol
+                if isinstance(c, tuple) and c[0] == "call" and \
+                        c[1] == "isinstance" and c[2][0] == NODE and \
+                        "Expression" in str(c[2][1]):
+                    return pol
+            return None
+        for ps in summarize(fn, loop_mode="01"):
+            if ps.term != "return":
+                continue
+            cls = _dispatch_call_ok(ps.retval, None)
+            known = is_expr(ps)
+            if cls in ("ancestor-handler", "handle_unsupported_expression") \
+                    and known is not True:
+                ok, why = False, (f"the {cls} exit is reached without "
+                                  "isinstance(expr, Expression) having been "
+                                  "established")
+            if cls == "map_foreign" and known is not False:
+                ok, why = False, ("map_foreign is reached for objects that may "
+                                  "be Expression instances")
+            if cls == "handle_unsupported_expression":
+                # the search must be over: the loop was skipped or ran to its end
+                done = any(it[0] in ("skipfor", "endfor") and it[1] is the_loop
+                           for it in ps.items)
+                if not done:
+                    ok, why = False, ("the unsupported-expression hook is "
+                                      "reached before the ancestor search")
     ctx.ob(f"D2/{owner.name}.{name}/mro-loop", ok, where(mem), why)
 
 
